@@ -320,6 +320,7 @@ func checkC05(c *core.Check) {
 		return
 	}
 	c.AddTLC(jr.TLC)
+	c.Drift("Params (generated parse order: which of several failing parameters is named)", jr.Drifts)
 	c.Add("traces_validated_against_impl", int64(judged))
 	c.Add("evaluations", int64(run.requests))
 	c.Add("programs", int64(run.programs))
